@@ -24,6 +24,13 @@ Proof. reflexivity. Qed.
 Lemma no_package_level_state : no_globals (bloom_methods ++ gcs_methods) = true.
 Proof. vm_compute. reflexivity. Qed.
 
+(* the GCS constructors store no alias of a reference-typed parameter in the filter (FromBytes copies, BuildGCSFilter
+   stores the bytes of its own bit stream; FromNBytes delegates to FromBytes and initialises nothing itself) *)
+Lemma gcs_constructors_copy :
+  no_aliasing_inits gcs_field_inits = true /\
+  has_init gcs_field_inits "FromBytes" = true /\ has_init gcs_field_inits "BuildGCSFilter" = true.
+Proof. vm_compute. repeat split. Qed.
+
 (* no translator give-ups anywhere in the two types *)
 Definition is_unsupported (e : event) : bool := match e with Unsupported _ => true | _ => false end.
 Lemma nothing_unsupported :
@@ -58,6 +65,8 @@ Section Compile.
     - intros H. destruct (IH H) as (accs & E & Ha). exists (Acc (sem (ReadField f)) :: accs).
       cbn [compile flat_map compile1 app]. fold (compile p). rewrite E. split; [reflexivity|exact Ha].
     - intros H. destruct (IH H) as (accs & E & Ha). exists (Acc (sem (WriteField f)) :: accs).
+      cbn [compile flat_map compile1 app]. fold (compile p). rewrite E. split; [reflexivity|exact Ha].
+    - intros H. destruct (IH H) as (accs & E & Ha). exists (Acc (sem (UseArg a)) :: accs).
       cbn [compile flat_map compile1 app]. fold (compile p). rewrite E. split; [reflexivity|exact Ha].
     - destruct (lookup tbl w); [|discriminate]. intros H. apply andb_true_iff in H as [_ H].
       destruct (IH H) as (accs & E & Ha). exists (Acc (sem (CallWorker w)) :: accs).
